@@ -95,6 +95,28 @@ pub fn run(ctx: &Ctx, ev: &mut Ev) {
             }
         }
     }
+    // (a2) every (lead byte, second byte) cell of the UTF-8 decoder, completed by continuation bytes, as the very end of a
+    // source buffer: end of the stream, and end of a non-final chunk that is followed by one more byte
+    if ctx.want("cells") && !tiny {
+        let caps = [64usize];
+        for a in 0xC0..=0xFFu32 {
+            if !ev.mine() { continue; }
+            for b in 0..=0xFFu32 { for (ti, tail) in [&[][..], &[0x80u8][..], &[0xBF], &[0x80, 0x80], &[0xBF, 0xBF], &[0x80, 0x61]].iter().enumerate() { for pad in [0usize, 13] {
+                let mut v = vec![b'a'; pad]; v.push(a as u8); v.push(b as u8); v.extend_from_slice(tail);
+                let end = v.len();
+                let mut v2 = v.clone(); v2.push(b'z');
+                let cut = [end];
+                for sink in [Sink::U16, Sink::Str, Sink::U8] { for repl in [true, false] { for (stream, cuts) in [(&v, &[][..]), (&v2, &cut[..])] {
+                    let case = DecCase { enc: UTF_8, bom: Bom::Off, sink, repl, stream, cuts, last_sep: ti % 2 == 1, caps: &caps, fill: 0xFF, src_align: (a as usize + ti) % 16, dst_align: (b as usize) % 16, filler: ti };
+                    let tr = ev.case();
+                    let out = drv.run_dec(&case, ev);
+                    if tr { println!("TRACE {} | calls: {} | fails: {:?}", case.describe(), fmt_calls(&out.calls), out.fails); }
+                    judge(ev, &case, &out);
+                    ev.nontrivial_enum();
+                } } }
+            } } }
+        }
+    }
     // (b) mem::convert_*_to_str* with every destination length, filler and phase
     if ctx.want("memstr") {
         let lmax = if tiny { 10 } else if th { 70 } else { 40 };
